@@ -172,7 +172,7 @@ static int cmd_run(int argc, char** argv)
             printf("START %llu\n", (unsigned long long)i);
             fflush(stdout);
             SeqPlan    plan = gen_seq_plan(mix3(seed, prop_salt(world, prop), i), prof);
-            arm_watchdog(30);
+            arm_watchdog(10);
             SeqOutcome out  = run_seq(plan, nullptr, prop);
             alarm(0);
             agg.add(out.st);
@@ -219,7 +219,7 @@ static int cmd_run(int argc, char** argv)
             printf("START %llu\n", (unsigned long long)i);
             fflush(stdout);
             js::Value   plan = conc_genplan(world, prop, seed, i, thorough);
-            arm_watchdog(60);
+            arm_watchdog(20);
             ConcOutcome out  = conc_run_plan_json(plan, nullptr);
             if (world == "pairs" && !conc_is_tsan_build() && !out.v.any() && !out.must_exit)
             {
